@@ -1,6 +1,7 @@
 (* Pinned statements of C09 (generated once by tools/mkpins.py from coq/props/C09.v, then committed). *)
 From DV Require Import Model.Base Model.NameCheck Model.Parser Model.Header Model.Readers Model.Uncompress
-  Model.Mutate Proofs.Hoare Proofs.HeaderBits Proofs.InsertLemmas props.C09.
+  Model.Mutate Spec.NameSpec Spec.PacketSpec Spec.RecordSpec Proofs.Hoare Proofs.HeaderBits Proofs.InsertLemmas
+  Proofs.WalkValues Proofs.SetTtl props.C09.
 Check (C09_insert_appends : forall sec rr v it s',
   insert_core sec rr (v, it) = (s', Ok tt) ->
   exists p1 ins,
@@ -13,3 +14,26 @@ Check (C09_set_ttl_frame : forall ttl v it s',
   snd s' = it /\
   only_bytes_changed (pp_packet v) (pp_packet (fst s')) (it_name_end it + 4) (it_name_end it + 8)).
 Print Assumptions C09_set_ttl_frame.
+Check (C09_set_ttl_effect : forall p v sec count off l e k r t it,
+  bytes_ok p -> pp_packet v = p -> 12 <= off ->
+  records_at p off l e -> e <= length p -> count = N.of_nat (length l) ->
+  (match sec with
+   | SAnswer => hdr_ancount p = Ok count /\ pp_offset_answers v = (if (0 <? count)%N then Some off else None)
+   | SNameServers => hdr_nscount p = Ok count /\ pp_offset_nameservers v = (if (0 <? count)%N then Some off else None)
+   | SAdditional => hdr_arcount p = Ok count /\ pp_offset_additional v = (if (0 <? count)%N then Some off else None)
+   | _ => False
+   end) ->
+  nth_error l k = Some r -> it_offset it = Some (rv_off r) -> it_name_end it = rv_name_end r ->
+  (t < 4294967296)%N ->
+  (forall r', In r' l -> forall i, name_reads p (rv_off r') i -> i < rv_name_end r + 4 \/ rv_name_end r + 8 <= i) ->
+  exists v', m_set_ttl t (v, it) = ((v', it), Ok tt) /\
+    only_bytes_changed p (pp_packet v') (rv_name_end r + 4) (rv_name_end r + 8) /\
+    walk_views v sec = Ok (map (view_of p) l) /\
+    walk_views v' sec = Ok (map (view_of p) (replace_nth l k (rv_with_ttl r t)))).
+Print Assumptions C09_set_ttl_effect.
+Check (C09_set_ttl_without_it_refuted : exists v v' it,
+    parse data_pointer_packet = Ok v /\ m_set_ttl 23265280 (v, it) = ((v', it), Ok tt) /\
+    it_offset it = Some 19 /\
+    (exists l, walk_views v SAnswer = Ok l /\ map view_name l = [[97]; [98]]%N) /\
+    (exists l', walk_views v' SAnswer = Ok l' /\ map view_name l' = [[97]; [99]]%N)).
+Print Assumptions C09_set_ttl_without_it_refuted.
